@@ -549,8 +549,22 @@ def rule_rwrite(c: Ctx) -> RuleResult:
                             return True
                         if isinstance(v, ast.IfExp):
                             return alt_ok(v.body) and alt_ok(v.orelse)
-                        return (isinstance(v, ast.Call) and isinstance(v.func, ast.Attribute) and v.func.attr == "renderInlineAsText"
-                                and bool(v.args) and U(v.args[0]).endswith(".children") and U(v.args[0]).split(".")[0] == U(recv))
+                        if (isinstance(v, ast.Call) and isinstance(v.func, ast.Attribute) and v.func.attr == "renderInlineAsText"
+                                and bool(v.args) and U(v.args[0]).endswith(".children") and U(v.args[0]).split(".")[0] == U(recv)):
+                            return True
+                        # self._altText(token, ...): a private helper whose every return is renderInlineAsText(<its token param>.children)
+                        if isinstance(v, ast.Call):
+                            cs2 = c.cg.site_of.get(v)
+                            if cs2 is not None and len(cs2.callees) == 1 and cs2.callees[0].cls == "RendererHTML" and cs2.callees[0].name.startswith("_"):
+                                h = cs2.callees[0]
+                                tp = next((pn for pn in [a.arg for a in h.node.args.args] if c.eff.arg_for_param(cs2, h, pn) is not None
+                                           and U(c.eff.arg_for_param(cs2, h, pn)) == U(recv)), None)
+                                rets = [n_ for n_ in own_nodes(h.node) if isinstance(n_, ast.Return) and n_.value is not None]
+                                if tp and rets and all(isinstance(rt.value, ast.Constant) or (
+                                        isinstance(rt.value, ast.Call) and isinstance(rt.value.func, ast.Attribute) and rt.value.func.attr == "renderInlineAsText"
+                                        and rt.value.args and U(rt.value.args[0]) in (f"{tp}.children", f"{tp}.children or []")) for rt in rets):
+                                    return True
+                        return False
                     ok = bool(vals) and all(alt_ok(v) for v in vals)
                     r.add(key, c.where(f, cs.node), f.short, U(cs.node)[:70], "discharged" if ok else "violation",
                           "idempotent: the alt text is recomputed from the token's own children, which the renderer never writes" if ok else
